@@ -185,7 +185,7 @@ class Check:
             print("KNOWN-FINDING: property=%s %s [%s; %d occurrence(s) this run]" % (self.pid, k["what"], kid, n))
         rc = 0
         rdir = OUT / "replays"
-        rdir.mkdir(exist_ok=True)
+        rdir.mkdir(parents=True, exist_ok=True)
         shown = set()
         for n, (sig, desc, replay) in enumerate(new):
             if sig in shown:
@@ -228,7 +228,7 @@ class Check:
             "violations": len(new),
         }
         edir = OUT / "evidence"
-        edir.mkdir(exist_ok=True)
+        edir.mkdir(parents=True, exist_ok=True)
         (edir / (self.pid + ".json")).write_text(json.dumps(ev, indent=1, default=str))
         print("%s tier=%s seed=%d: states=%d transitions=%d impl_executions=%d violations=%d known=%d wall=%.1fs"
               % (self.pid, self.tier, SEED, self.states, self.transitions, self.traces, len(new),
@@ -261,7 +261,8 @@ def validate_batch(spec, cfg, events, *, idkey="tid", workers=None, timeout=3600
         if not os.environ.get("VERIF_KEEP"):
             shutil.rmtree(wd, ignore_errors=True)
     verdicts = {}
-    for m in re.finditer(r'<<"%s", (-?\d+), "([^"]*)">>' % tag, res.out):
+    # TLC wraps tuples longer than 80 characters over several lines: be whitespace-tolerant
+    for m in re.finditer(r'<<\s*"%s",\s*(-?\d+),\s*"([^"]*)"\s*>>' % tag, res.out):
         verdicts.setdefault(int(m.group(1)), [])
         if m.group(2) not in verdicts[int(m.group(1))]:
             verdicts[int(m.group(1))].append(m.group(2))
